@@ -13,7 +13,7 @@ def noEvict (V : Verifier) (cfg : FCfg) : HState → List Ev → Bool
   | _, [] => true
   | s, e :: es =>
     (match e with
-      | .cleanup _ => decide ((expire s.f.seen s.now cfg.ttl).length ≤ cfg.maxSize)
+      | .cleanup _ => decide ((expire s.f.seen s.now (sleepTtl cfg)).length ≤ cfg.maxSize)
       | _ => true) && noEvict V cfg (stepEv V cfg s e).1 es
 
 def held (l : List Seen) (o i : Nat) (t1 : Int) : Prop := ∃ e ∈ l, keyEq e o i = true ∧ e.seenAt ≥ t1
@@ -59,40 +59,57 @@ theorem expire_held {l : List Seen} {now ttl : Int} {o i : Nat} {t1 : Int}
     rw [List.mem_filter]
     exact ⟨he, by simp [hx]⟩
 
-theorem handle_seen (V : Verifier) (cfg : FCfg) (st : FState) (now : Int) (k : Kind) (from_ : Nat) (c : Cmd) :
-    (handle V cfg st now k from_ c).1.seen = (mark st.seen now c.origin c.id from_).1 := by
+/-- The cache after `handle` is the old cache or the result of `mark`; either way an entry that
+    protects a key stays (possibly refreshed). -/
+theorem handle_held (V : Verifier) (cfg : FCfg) (st : FState) (now : Int) (k : Kind) (from_ : Nat) (c : Cmd)
+    {o i : Nat} {t1 : Int} (h : held st.seen o i t1) (ht : t1 ≤ now) :
+    held (handle V cfg st now k from_ c).1.seen o i t1 := by
   unfold handle handleWith
-  generalize mark st.seen now c.origin c.id from_ = m
-  obtain ⟨seen', isNew⟩ := m
-  dsimp only
-  by_cases h1 : (!isNew) = true
-  · rw [if_pos h1]
-  · rw [if_neg h1]
-    by_cases h2 : c.seenBy.contains cfg.localID = true
-    · rw [if_pos h2]
-    · rw [if_neg h2]
-      by_cases h3 : (!verifyWith tsOutside V cfg now c) = true
-      · rw [if_pos h3]
-      · rw [if_neg h3]; cases k <;> rfl
+  by_cases h2 : c.seenBy.contains cfg.localID = true
+  · rw [if_pos h2]; exact h
+  · rw [if_neg h2]
+    by_cases h3 : (!verifyWith tsOutside V cfg now c) = true
+    · rw [if_pos h3]; exact h
+    · rw [if_neg h3]
+      have hm := mark_held (now := now) (o := c.origin) (i := c.id) (f := from_) h ht
+      generalize mark st.seen now c.origin c.id from_ = m at hm
+      obtain ⟨seen', isNew⟩ := m
+      dsimp only at hm ⊢
+      by_cases h1 : (!isNew) = true
+      · rw [if_pos h1]; exact hm
+      · rw [if_neg h1]; cases k <;> exact hm
 
 theorem handle_accept_new (V : Verifier) (cfg : FCfg) (st : FState) (now : Int) (k : Kind) (from_ : Nat) (c : Cmd)
-    (h : (handle V cfg st now k from_ c).2.1 = true) : (mark st.seen now c.origin c.id from_).2 = true := by
-  unfold handle handleWith at h
-  generalize mark st.seen now c.origin c.id from_ = m at *
-  obtain ⟨seen', isNew⟩ := m
-  dsimp only at *
-  by_cases h1 : (!isNew) = true
-  · rw [if_pos h1] at h; simp at h
-  · simpa using h1
+    (h : (handle V cfg st now k from_ c).2.1 = true) :
+    (mark st.seen now c.origin c.id from_).2 = true ∧
+    (handle V cfg st now k from_ c).1.seen = (mark st.seen now c.origin c.id from_).1 := by
+  unfold handle handleWith at h ⊢
+  by_cases h2 : c.seenBy.contains cfg.localID = true
+  · rw [if_pos h2] at h; simp at h
+  · rw [if_neg h2] at h ⊢
+    by_cases h3 : (!verifyWith tsOutside V cfg now c) = true
+    · rw [if_pos h3] at h; simp at h
+    · rw [if_neg h3] at h ⊢
+      generalize mark st.seen now c.origin c.id from_ = m at *
+      obtain ⟨seen', isNew⟩ := m
+      dsimp only at *
+      by_cases h1 : (!isNew) = true
+      · rw [if_pos h1] at h; simp at h
+      · rw [if_neg h1]
+        refine ⟨by simpa using h1, ?_⟩
+        cases k <;> rfl
+
+theorem sleepTtl_ge (cfg : FCfg) : sleepTtl cfg ≥ 2 * cfg.window := by
+  unfold sleepTtl; split <;> omega
 
 /-- The instant a command's timestamp denotes, in ns. -/
 def tgtT (target : Cmd) : Int := cmdSec target.ts * 1000000000
 
 /-- "`target` was accepted at some earlier instant `t1` and is still protected": its key is
-    still in the cache with `SeenAt ≥ t1`, or more than `ttl` has passed since `t1`. -/
+    still in the cache with `SeenAt ≥ t1`, or more than the cache TTL has passed since `t1`. -/
 def Protected (cfg : FCfg) (target : Cmd) (s : HState) : Prop :=
   ∃ t1 : Int, tgtT target - cfg.window ≤ t1 ∧ t1 ≤ s.now ∧
-    (held s.f.seen target.origin target.id t1 ∨ s.now > t1 + cfg.ttl)
+    (held s.f.seen target.origin target.id t1 ∨ s.now > t1 + sleepTtl cfg)
 
 theorem sameCmd_eq {a b : Cmd} (h : sameCmd a b = true) :
     a.origin = b.origin ∧ a.id = b.id ∧ a.ts = b.ts ∧ a.sig = b.sig := by
@@ -105,21 +122,23 @@ theorem accept_protects (V : Verifier) (cfg : FCfg) (target : Cmd) (s : HState) 
     Protected cfg target { s with f := (handle V cfg s.f s.now k from_ c).1 } := by
   obtain ⟨ho, hi, hts, _⟩ := sameCmd_eq hsame
   have hv := verify_sound V cfg s.now c hk hw (handle_accept V cfg s.f s.now k from_ c hacc)
-  have hnew := mark_fst_new (handle_accept_new V cfg s.f s.now k from_ c hacc)
+  have hn := handle_accept_new V cfg s.f s.now k from_ c hacc
+  have hnew := mark_fst_new hn.1
   refine ⟨s.now, ?_, Int.le_refl _, Or.inl ?_⟩
   · unfold tgtT; rw [← hts]; have := hv.2.2.1; omega
   · dsimp only
-    rw [handle_seen, hnew.2, ← ho, ← hi]
+    rw [hn.2, hnew.2, ← ho, ← hi]
     exact ⟨_, List.mem_cons_self, by simp [keyEq], Int.le_refl _⟩
 
-/-- Under protection no step accepts `target`, and protection is preserved — provided the TTL is
-    at least twice the window and the step does not size-evict. -/
+/-- Under protection no step accepts `target`, and protection is preserved — provided the step does not
+    size-evict (the cache TTL is at least twice the window by construction). -/
 theorem step_protected (V : Verifier) (cfg : FCfg) (target : Cmd) (s : HState) (e : Ev)
-    (hk : cfg.signing = true) (hw : cfg.window < 2^63 - 1) (httl : cfg.ttl ≥ 2 * cfg.window)
+    (hk : cfg.signing = true) (hw : cfg.window < 2^63 - 1)
     (hne : noEvict V cfg s [e] = true) (hp : Protected cfg target s) :
     Protected cfg target (stepEv V cfg s e).1 ∧
     ∀ c, (stepEv V cfg s e).2.1 = some c → sameCmd c target = false := by
   obtain ⟨t1, h1, h2, h3⟩ := hp
+  have httl := sleepTtl_ge cfg
   cases e with
   | deliver k from_ c =>
     have hstep : stepEv V cfg s (.deliver k from_ c) =
@@ -131,7 +150,7 @@ theorem step_protected (V : Verifier) (cfg : FCfg) (target : Cmd) (s : HState) (
     refine ⟨⟨t1, h1, h2, ?_⟩, ?_⟩
     · dsimp only
       rcases h3 with h3 | h3
-      · left; rw [handle_seen]; exact mark_held h3 h2
+      · left; exact handle_held V cfg s.f s.now k from_ c h3 h2
       · right; exact h3
     · intro c' hc'
       dsimp only at hc'
@@ -147,7 +166,7 @@ theorem step_protected (V : Verifier) (cfg : FCfg) (target : Cmd) (s : HState) (
           exfalso
           obtain ⟨ho, hi, hts, _⟩ := sameCmd_eq hsame
           have hv := verify_sound V cfg s.now c hk hw (handle_accept V cfg s.f s.now k from_ c hacc)
-          have hnew := mark_fst_new (handle_accept_new V cfg s.f s.now k from_ c hacc)
+          have hnew := mark_fst_new (handle_accept_new V cfg s.f s.now k from_ c hacc).1
           rw [ho, hi] at hnew
           rcases h3 with h3 | h3
           · exact hasKey_false_not_held hnew.1 h3
@@ -157,13 +176,13 @@ theorem step_protected (V : Verifier) (cfg : FCfg) (target : Cmd) (s : HState) (
     · show t1 ≤ s.now + d; omega
     · rcases h3 with h3 | h3
       · left; exact h3
-      · right; show s.now + d > t1 + cfg.ttl; omega
+      · right; show s.now + d > t1 + sleepTtl cfg; omega
     · intro c hc; simp [stepEv] at hc
   | cleanup vs =>
-    have hfit : (expire s.f.seen s.now cfg.ttl).length ≤ cfg.maxSize := by
+    have hfit : (expire s.f.seen s.now (sleepTtl cfg)).length ≤ cfg.maxSize := by
       simpa [noEvict] using hne
-    have hcl : cleanup cfg s.f.seen s.now vs = expire s.f.seen s.now cfg.ttl := by
-      unfold cleanup
+    have hcl : cleanup cfg s.f.seen s.now vs = expire s.f.seen s.now (sleepTtl cfg) := by
+      unfold cleanup cleanupWith
       dsimp only
       rw [if_pos (by omega)]
     refine ⟨⟨t1, h1, h2, ?_⟩, ?_⟩
@@ -195,7 +214,7 @@ theorem noEvict_cons {V : Verifier} {cfg : FCfg} {s : HState} {e : Ev} {es : Lis
 
 /-- Once protected, never accepted again. -/
 theorem accepts_protected (V : Verifier) (cfg : FCfg) (target : Cmd)
-    (hk : cfg.signing = true) (hw : cfg.window < 2^63 - 1) (httl : cfg.ttl ≥ 2 * cfg.window) :
+    (hk : cfg.signing = true) (hw : cfg.window < 2^63 - 1) :
     ∀ (evs : List Ev) (s : HState), noEvict V cfg s evs = true → Protected cfg target s →
       accepts V cfg target s evs = 0 := by
   intro evs
@@ -204,7 +223,7 @@ theorem accepts_protected (V : Verifier) (cfg : FCfg) (target : Cmd)
   | cons e es ih =>
     intro s hne hp
     obtain ⟨hne1, hne2⟩ := noEvict_cons hne
-    obtain ⟨hp', hno⟩ := step_protected V cfg target s e hk hw httl hne1 hp
+    obtain ⟨hp', hno⟩ := step_protected V cfg target s e hk hw hne1 hp
     have ih' := ih _ hne2 hp'
     unfold accepts
     generalize hst : stepEv V cfg s e = r at *
